@@ -181,3 +181,29 @@ def compare(ctx, model, rule, cname, args=(), kwargs=None, n_words=None, module=
                       detail=f"word {w!r} between {pre!r} and {post!r}: composed term {'accepts' if a else 'rejects'}, "
                              f"emitted text {text[:100]!r} {'accepts' if b else 'rejects'}")
     return n
+
+
+def process_order(ctx, model, rule, cfgs, module=ESS):
+    """R-PROCESS - what a constructor composes does not depend on what the process built before.
+    Every configuration is built in a fresh interpreter (= fresh process), then all of them in ONE interpreter
+    backwards and then forwards (module- and class-level tables, memos and caches live on and are filled in an
+    unusual order); the composed terms must be the same each time."""
+    def one(it, cfg):
+        cname, args, kwargs = (list(cfg) + [{}])[:3]
+        k, t = FL.build(model, cname, list(args), dict(kwargs or {}), module=module, interp=it)
+        return ("raise " + t.name) if k == "raise" else FL.to_text(t)
+    label = lambda cfg: f"{cfg[0]}({', '.join([repr(a) for a in cfg[1]] + [f'{k}={v!r}' for k, v in (cfg[2] if len(cfg) > 2 else {}).items()])})"
+    fresh = [one(None, cfg) for cfg in cfgs]
+    shared = FL.meta_interp(model, fuel=200_000_000)
+    back = [one(shared, cfg) for cfg in reversed(cfgs)][::-1]
+    again = [one(shared, cfg) for cfg in cfgs]
+    for i, cfg in enumerate(cfgs):
+        ctx.instance(rule, key=label(cfg), sample=f"{label(cfg)}: same term fresh, after {len(cfgs) - 1 - i} later configurations, and again")
+        if not (fresh[i] == back[i] == again[i]):
+            f = model.cls(module, cfg[0]).find_method("__init__")
+            other = back[i] if back[i] != fresh[i] else again[i]
+            prev = label(cfgs[i + 1]) if back[i] != fresh[i] and i + 1 < len(cfgs) else "the whole list"
+            ctx.violation(rule, f.relpath, f.short, "<result depends on earlier constructions>",
+                          "the constructor composes a different pattern when other patterns were built earlier in the same process "
+                          "(a shared table, memo or cache leaks from one construction into the next)", f.node.lineno, inp=label(cfg),
+                          detail=f"fresh process: {fresh[i][:90]!r}; after {prev}: {other[:90]!r}")
